@@ -108,6 +108,7 @@ type Exec struct {
 	atWild   map[string][]Clause // wildcard call-site assertions, expanded per site
 	// inlining of small helpers without a contract (call.go inlineCall)
 	rootFn      *ssa.Function    // the function under verification while a helper is being executed
+	rootCon     *Contract        // its contract
 	rootParams  map[string]Value // its parameters (model values)
 	inlinePre   string           // prefix of obligation sites inside the helper
 	inlineDepth int
@@ -908,6 +909,10 @@ func (x *Exec) loopEnter(s *State, li *loopInfo, pred *ssa.BasicBlock) {
 			lc.modAddrs[it.key] = append(lc.modAddrs[it.key], it.addr)
 		}
 	}
+	lc.errAtEntry = map[string]bool{}
+	for k := range s.errSeen {
+		lc.errAtEntry[k] = true
+	}
 	s.loops[li.head.Index] = lc
 }
 
@@ -923,6 +928,19 @@ func (x *Exec) loopBack(s *State, li *loopInfo, pred *ssa.BasicBlock) {
 	if lc == nil {
 		x.failed = "back edge without loop context"
 		return
+	}
+	// the loop goes round again: no error reported in this iteration was swallowed
+	if len(s.errSeen) > 0 {
+		all := s.errSeen
+		mine := map[string]string{}
+		for k, v := range all {
+			if !lc.errAtEntry[k] {
+				mine[k] = v
+			}
+		}
+		s.errSeen = mine
+		x.errDropped(s, "true", "the loop goes on", nil)
+		s.errSeen = all
 	}
 	idx := predIndex(li.head, pred)
 	var phis []*ssa.Phi
@@ -1057,6 +1075,9 @@ func (x *Exec) doReturn(s *State, r *ssa.Return) {
 		results = append(results, x.val(s, v))
 	}
 	bindResults(env, sig, results)
+	if n := len(results); n > 0 && isErrorType(sig.Results().At(n-1).Type()) && len(results[n-1].F) == 2 {
+		x.errDropped(s, eq(results[n-1].F[0].S, "0"), "success is returned", r)
+	}
 	if x.con != nil {
 		for i, c := range x.con.Ensures {
 			if c.Local {
